@@ -64,3 +64,12 @@ package schedulerplugin
 //@   ensures [C10:unassign-before-free] result == nil && p.cloudProvider != nil && old(StoreDom[ipS]) && old(StoreKey[ipS]) == r.KeyObj.KeyInDB && old(StoreNode[ipS]) != "" && !StoreDom[ipS] ==> ProvNode[ipS] == ""
 //@   ensures noLocksHeld()
 //@   modifies all
+
+// releaseIP(key): frees entries keyed `key` only; owner attributes of every remaining object are untouched
+//@ pure otherKeysUntouched(key string) bool = forall k string :: !(old(StoreDom[k]) && old(StoreKey[k]) == key) ==> storeSameAt(k)
+//@ func [C04,C03,C01] (*FloatingIPPlugin).releaseIP
+//@   requires ipamOK(p)
+//@   ensures ipamOK(p)
+//@   ensures [C04,C01:releaseip-only-own-key] otherKeysUntouched(key)
+//@   modifies all
+//@   loop 0 invariant m != nil && fresh(m) && forall k string :: k in m ==> m[k] == key
